@@ -59,7 +59,7 @@ fn once(id: usize, init: &mut dyn FnMut()) {
 }
 fn epoch() -> usize { EPOCH.load(Ordering::SeqCst) }
 
-pub const OPS: [&str; 12] = ["format", "format_flat", "tree_format(false)", "tree_format(true)", "diagnostic_annotated", "hex", "register_tags", "known_value_name", "functions_lookup", "parameters_lookup", "tags_lookup", "digest+encoding"];
+pub const OPS: [&str; 13] = ["format", "format_flat", "tree_format(false)", "tree_format(true)", "diagnostic_annotated", "hex", "register_tags", "known_value_name", "functions_lookup", "parameters_lookup", "tags_lookup", "digest+encoding", "register_custom_tag"];
 fn run_op(op: usize, e: &Envelope) -> String {
     match op {
         0 => e.format(),
@@ -73,7 +73,9 @@ fn run_op(op: usize, e: &Envelope) -> String {
         8 => { let g = bc_envelope::extension::expressions::GLOBAL_FUNCTIONS.get(); let s = g.as_ref().unwrap(); format!("{}|{}", s.name(&Function::from(1u64)), s.name(&Function::from(99u64))) }
         9 => { let g = bc_envelope::extension::expressions::GLOBAL_PARAMETERS.get(); let s = g.as_ref().unwrap(); format!("{}|{}", s.name(&Parameter::from(1u64)), s.name(&Parameter::from(99u64))) }
         10 => dcbor::with_tags!(|t: &dcbor::TagsStore| format!("{}|{}|{}", t.name_for_value(200), t.name_for_value(40000), t.name_for_value(1))),
-        _ => format!("{}|{}", hex(e.digest().data()), hex(&e.to_cbor_data())),
+        11 => format!("{}|{}", hex(e.digest().data()), hex(&e.to_cbor_data())),
+        // an application registering its own tag name in the global format context (the documented use of with_format_context_mut!)
+        _ => { bc_envelope::with_format_context_mut!(|ctx: &mut FormatContext| { ctx.tags_mut().insert(dcbor::Tag::new(999, "custom-tag")); }); String::new() }
     }
 }
 fn hex(b: &[u8]) -> String { b.iter().map(|x| format!("{:02x}", x)).collect() }
@@ -83,6 +85,7 @@ fn shared_envelope() -> Envelope {
         .add_assertion(known_values::NOTE, "hi")
         .add_assertion("f", Envelope::new(Function::from(1u64)).add_assertion(Envelope::new(Parameter::from(2u64)), 7))
         .add_assertion("when", dcbor::Date::from_timestamp(1720091471.0))
+        .add_assertion("custom", CBOR::to_tagged_value(999, "payload"))
 }
 type Config = Vec<Vec<usize>>;
 fn run_program(p: &[usize], e: &Envelope) -> Vec<String> { p.iter().map(|op| run_op(*op, e)).collect() }
@@ -157,6 +160,8 @@ fn child(cfg: Config, bound: Option<usize>, fail_file: String) {
     let mut b = loom::model::Builder::new();
     b.preemption_bound = bound;
     b.max_branches = 200_000;
+    let cap_secs: u64 = std::env::var("VC_MAX_SECS").ok().and_then(|s| s.parse().ok()).unwrap_or(120);
+    b.max_duration = Some(std::time::Duration::from_secs(cap_secs));
     let t0 = std::time::Instant::now();
     b.check(move || {
         ITERS.fetch_add(1, Ordering::Relaxed);
@@ -174,7 +179,7 @@ fn child(cfg: Config, bound: Option<usize>, fail_file: String) {
         *oc.lock().unwrap().entry(outs).or_insert(0) += 1;
     });
     let o = outcomes.lock().unwrap();
-    println!("RESULT {}", json!({"config": name, "threads": cfg.len(), "bound": bound, "schedules": ITERS.load(Ordering::SeqCst), "sync_events": EVENTS.load(Ordering::SeqCst), "distinct_outcomes": o.len(), "sequential_reference_outcomes": ref_n, "schedules_with_an_intermediate_state_observed": nonjoint.load(Ordering::Relaxed), "secs": t0.elapsed().as_secs_f64()}));
+    println!("RESULT {}", json!({"config": name, "threads": cfg.len(), "bound": bound, "schedules": ITERS.load(Ordering::SeqCst), "sync_events": EVENTS.load(Ordering::SeqCst), "distinct_outcomes": o.len(), "sequential_reference_outcomes": ref_n, "schedules_with_an_intermediate_state_observed": nonjoint.load(Ordering::Relaxed), "secs": t0.elapsed().as_secs_f64(), "time_cap_hit": t0.elapsed().as_secs() >= cap_secs}));
 }
 
 fn configs(tier: &str) -> Vec<(Config, Option<usize>)> {
@@ -182,13 +187,13 @@ fn configs(tier: &str) -> Vec<(Config, Option<usize>)> {
     let n = OPS.len();
     let thorough = tier == "thorough";
     // every pair of single-operation threads (up to symmetry), iterated preemption bounds
-    for a in 0..n { for b in a..n { if thorough { v.push((vec![vec![a], vec![b]], None)) } else { v.push((vec![vec![a], vec![b]], Some(3))) } } }
+    for a in 0..n { for b in a..n { v.push((vec![vec![a], vec![b]], Some(if thorough { 5 } else { 3 }))) } }
     // (2-op, 1-op) pairs: first-use race followed by a formatting call, against every single operation
-    let two: Vec<Vec<usize>> = vec![vec![6, 1], vec![6, 0], vec![7, 0], vec![10, 2], vec![8, 4], vec![0, 6], vec![1, 1], vec![9, 1], vec![11, 0], vec![6, 4], vec![5, 6], vec![2, 3]];
+    let two: Vec<Vec<usize>> = vec![vec![6, 1], vec![6, 0], vec![7, 0], vec![10, 2], vec![8, 4], vec![0, 6], vec![1, 1], vec![9, 1], vec![11, 0], vec![6, 4], vec![5, 6], vec![2, 3], vec![12, 1], vec![12, 6], vec![6, 12]];
     for p in &two { for b in 0..n { v.push((vec![p.clone(), vec![b]], Some(if thorough { 3 } else { 2 }))) } }
     // three threads: operation triples that touch different registries
-    let triples: Vec<[usize; 3]> = vec![[0, 6, 2], [1, 7, 10], [6, 8, 9], [0, 1, 6], [4, 6, 7], [2, 3, 6], [6, 6, 0], [7, 8, 1], [10, 6, 5], [11, 0, 6]];
-    for t in triples.iter().take(if thorough { 10 } else { 6 }) { v.push((t.iter().map(|o| vec![*o]).collect(), Some(if thorough { 3 } else { 2 }))) }
+    let triples: Vec<[usize; 3]> = vec![[0, 6, 2], [1, 7, 10], [6, 8, 9], [0, 1, 6], [4, 6, 7], [2, 3, 6], [6, 6, 0], [7, 8, 1], [10, 6, 5], [11, 0, 6], [12, 6, 1], [12, 12, 6]];
+    for t in triples.iter().rev().take(if thorough { 12 } else { 7 }) { v.push((t.iter().map(|o| vec![*o]).collect(), Some(if thorough { 3 } else { 2 }))) }
     if thorough {
         for q in [[0usize, 6, 2, 1], [6, 7, 8, 0], [0, 0, 6, 6], [1, 10, 6, 4], [6, 9, 2, 11], [3, 4, 5, 6]] { v.push((q.iter().map(|o| vec![*o]).collect(), Some(2))) }
         for t in [[vec![6usize, 0], vec![1], vec![2]], [vec![0, 6], vec![6, 1], vec![7]]] { v.push((t.to_vec(), Some(2))) }
@@ -233,7 +238,7 @@ fn main() {
                 let fail_file = format!("{dir}/.fail-{}-{k}.json", std::process::id());
                 let _ = std::fs::remove_file(&fail_file);
                 let out = std::process::Command::new(&exe).arg("child").arg(serde_json::to_string(cfg).unwrap()).arg(bound.map(|b| b.to_string()).unwrap_or_else(|| "none".into())).arg(&fail_file)
-                    .env("LOOM_MAX_DURATION", if tier == "thorough" { "1500" } else { "120" }).output().expect("spawn child");
+                    .env("VC_MAX_SECS", if tier == "thorough" { "900" } else { "120" }).output().expect("spawn child");
                 let stdout = String::from_utf8_lossy(&out.stdout).to_string();
                 if out.status.success() {
                     if let Some(l) = stdout.lines().find(|l| l.starts_with("RESULT ")) { results.lock().unwrap().push(serde_json::from_str(&l[7..]).unwrap()) }
@@ -265,6 +270,8 @@ fn main() {
     let schedules: u64 = results.iter().map(|r| r["schedules"].as_u64().unwrap_or(0)).sum();
     let events: u64 = results.iter().map(|r| r["sync_events"].as_u64().unwrap_or(0)).sum();
     let outcomes: u64 = results.iter().map(|r| r["distinct_outcomes"].as_u64().unwrap_or(0)).sum();
+    let capped: Vec<&Value> = results.iter().filter(|r| r["time_cap_hit"].as_bool().unwrap_or(false)).collect();
+    let capped_names: Vec<String> = capped.iter().map(|r| r["config"].as_str().unwrap_or("").to_string()).collect();
     let multi: usize = results.iter().filter(|r| r["distinct_outcomes"].as_u64().unwrap_or(0) >= 2).count();
     let by_shape = { let mut m: BTreeMap<String, (u64, u64)> = BTreeMap::new(); for r in &results { let k = format!("{} threads, preemption bound {}", r["threads"], r["bound"]); let e = m.entry(k).or_insert((0, 0)); e.0 += 1; e.1 += r["schedules"].as_u64().unwrap_or(0) } m.into_iter().map(|(k, (c, s))| json!({"shape": k, "configurations": c, "schedules": s})).collect::<Vec<_>>() };
     let mut samples: Vec<Value> = results.iter().filter(|r| r["distinct_outcomes"].as_u64().unwrap_or(0) >= 2).take(3).cloned().collect();
@@ -274,8 +281,8 @@ fn main() {
         "coverage": {"states": schedules.max(1), "transitions": events.max(1), "traces_validated_against_impl": schedules, "samples": samples,
             "evaluations": schedules.max(1), "distinct_nontrivial": (outcomes as usize).max(2),
             "rule": "a case = one complete thread schedule of a configuration (2..4 loom threads, 1..2 operations each, on one shared envelope) run on the REAL lazy registries and formatter through the synchronisation seam, registries reset to never-initialised at the start of every execution; oracle: terminates (no deadlock / panic / poisoned lock) and the per-thread outputs equal those of SOME sequential order on freshly initialised registries; distinct_nontrivial = sum over configurations of distinct outcome vectors observed",
-            "exhaustive": true, "configurations": results.len(), "configurations_with_at_least_two_outcomes": multi, "by_shape": by_shape,
-            "bounds": {"threads_max": if tier == "thorough" { 4 } else { 3 }, "preemption_bounds": if tier == "thorough" { "2 threads unbounded, 3 threads bound 3, 4 threads bound 2" } else { "2 threads bound 3 (single ops) / 2 (two-op programs), 3 threads bound 2" }, "loom_branch_cap": 200000},
+            "exhaustive": capped_names.is_empty(), "configurations_stopped_by_the_time_cap": capped_names, "configurations": results.len(), "configurations_with_at_least_two_outcomes": multi, "by_shape": by_shape,
+            "bounds": {"threads_max": if tier == "thorough" { 4 } else { 3 }, "preemption_bounds": if tier == "thorough" { "2 threads bound 5 (single ops) / 3 (two-op programs), 3 threads bound 3, 4 threads bound 2" } else { "2 threads bound 3 (single ops) / 2 (two-op programs), 3 threads bound 2" }, "loom_branch_cap": 200000},
             "operations": OPS, "failed_configurations": failures.len(), "known_findings_met": known_met, "unlisted_violations": viols},
         "assumptions": ["threads <= 4 (loom's limit); the statement says 2..16: a deadlock cycle needs at most as many threads as locks in the cycle and a first-use race needs two",
             "dcbor's registry is explored through a vendored copy of dcbor 0.17.1 that differs in three lines (sync import routed through the same seam)",
